@@ -27,6 +27,8 @@ pub struct GenCfg {
     pub abort_weight: u32,
     /// weight of "drop an outstanding request" among shell actions
     pub drop_weight: u32,
+    /// weight of "spawn a further task on a command update has returned" (hosts that hold the command)
+    pub late_spawn_weight: u32,
     /// task-to-task channels
     pub chans: bool,
     /// select
@@ -44,10 +46,10 @@ pub struct GenCfg {
 
 impl GenCfg {
     pub fn standard() -> Self {
-        GenCfg { depth: 3, max_acts: 30, abortable: true, task_aborts: true, retaining: true, legacy: false, again_weight: 2, start_weight: 1, wrap: false, scale: true, garbage_weight: 0, abort_weight: 1, drop_weight: 3, chans: true, select: true, select_keep: true, mixed: 15, behind_then: 4 }
+        GenCfg { depth: 3, max_acts: 30, abortable: true, task_aborts: true, retaining: true, legacy: false, again_weight: 2, start_weight: 1, wrap: false, scale: true, garbage_weight: 0, abort_weight: 1, drop_weight: 3, late_spawn_weight: 1, chans: true, select: true, select_keep: true, mixed: 15, behind_then: 4 }
     }
     pub fn legacy() -> Self {
-        GenCfg { depth: 3, max_acts: 30, abortable: false, task_aborts: false, retaining: false, legacy: true, again_weight: 2, start_weight: 1, wrap: false, scale: true, garbage_weight: 0, abort_weight: 1, drop_weight: 3, chans: true, select: true, select_keep: true, mixed: 15, behind_then: 4 }
+        GenCfg { depth: 3, max_acts: 30, abortable: false, task_aborts: false, retaining: false, legacy: true, again_weight: 2, start_weight: 1, wrap: false, scale: true, garbage_weight: 0, abort_weight: 1, drop_weight: 3, late_spawn_weight: 1, chans: true, select: true, select_keep: true, mixed: 15, behind_then: 4 }
     }
 }
 
@@ -159,7 +161,7 @@ pub fn act(cfg: GenCfg) -> BoxedStrategy<Act> {
         (1, Just(Act::Noop).boxed()),
         (1, (drain_len, any::<u8>()).prop_map(|(n, pat)| Act::Drain(n, pat)).boxed()),
     ];
-    for (w, st) in [(cfg.again_weight, any::<u16>().prop_map(Act::ResolveAgain).boxed()), (cfg.start_weight, (0u8..3).prop_map(Act::Start).boxed()), (cfg.garbage_weight, any::<u16>().prop_map(Act::Garbage).boxed())] {
+    for (w, st) in [(cfg.again_weight, any::<u16>().prop_map(Act::ResolveAgain).boxed()), (cfg.start_weight, (0u8..3).prop_map(Act::Start).boxed()), (cfg.garbage_weight, any::<u16>().prop_map(Act::Garbage).boxed()), (if cfg.legacy { 0 } else { cfg.late_spawn_weight }, (any::<u16>(), big_fan_body(cfg)).prop_map(|(c, b)| Act::SpawnOn(c, b)).boxed())] {
         if w > 0 {
             v.push((w, st));
         }
@@ -184,8 +186,8 @@ pub fn universe(cfg: GenCfg) -> BoxedStrategy<Universe> {
     // (a host without a core runs these programs as commands: nothing the command-side configuration excludes)
     let legacy_style = GenCfg { abortable: false, task_aborts: false, retaining: false, legacy: true, select_keep: cfg.select_keep && cfg.retaining, ..cfg };
     let mixed = if cfg.legacy || cfg.mixed == 0 { Just((0u32, 0u8, vec![])).boxed() } else { (0u32..100, 1u8..4, prop::collection::vec(cmd(legacy_style), 2)).boxed() };
-    (prop::collection::vec(cmd(cfg), 1..3), proptest::option::weighted(0.5, (1u8..8, 0u8..3)), prop::collection::vec(act(cfg), 0..cfg.max_acts), layers, 0u32..100, mixed)
-        .prop_map(move |(mut programs, follow, acts, layers, behind, (mixed_roll, mask, legacy_programs))| {
+    (prop::collection::vec(cmd(cfg), 1..3), proptest::option::weighted(0.5, (1u8..8, 0u8..3)), prop::collection::vec(act(cfg), 0..cfg.max_acts), layers, (0u32..100, 0u8..5), mixed)
+        .prop_map(move |(mut programs, follow, acts, layers, (behind, inspect), (mixed_roll, mask, legacy_programs))| {
             // one core, both API families: the chosen programs are replaced by programs written for
             // the legacy API (which run inside `update`), the others stay commands
             let mut legacy_mask = 0u8;
@@ -208,7 +210,7 @@ pub fn universe(cfg: GenCfg) -> BoxedStrategy<Universe> {
                 }
             }
             let n = programs.len() as u8;
-            let mut u = Universe { programs, follow: follow.map(|(m, p)| (m, p % n)), acts, legacy_mask };
+            let mut u = Universe { programs, follow: follow.map(|(m, p)| (m, p % n)), acts, legacy_mask, inspect };
             sanitize(&mut u);
             u
         })
